@@ -132,11 +132,15 @@ func (th *engThread) release(d time.Duration) bool {
 }
 
 func engRunProgram(ctx *engCtx, th *engThread, g *engGate, prog []Op, clk *int64, out *[]engCallRec, mu *sync.Mutex, barrier func()) {
+	// harness-side preparation of every operation comes first: nothing but the calls runs once the threads are released
+	preps := make([]engPrepped, len(prog))
+	for i, op := range prog {
+		preps[i] = ctx.prep(op)
+	}
 	if barrier != nil {
 		barrier()
 	}
 	for i, op := range prog {
-		doc := engPrep(op)
 		var td *document.TemplateData
 		if op.Name() == "Render" {
 			td = engData(engOpData(op))
@@ -146,7 +150,7 @@ func engRunProgram(ctx *engCtx, th *engThread, g *engGate, prog []Op, clk *int64
 			<-th.resume
 		}
 		b := atomic.AddInt64(clk, 1)
-		ret, _, res, _ := ctx.engCall(op, doc, td)
+		ret, _, res, _ := ctx.engCall(op, preps[i], td)
 		e := atomic.AddInt64(clk, 1)
 		mu.Lock()
 		*out = append(*out, engCallRec{T: th.idx, I: i + 1, Op: op, Ret: ret, Res: res, B: b, E: e})
@@ -173,9 +177,35 @@ func engConcSetup(cc engConcCase) *engCtx {
 		ctx.probe = Op{"data": map[string]interface{}(cc.PData)}
 	}
 	for _, op := range cc.Setup {
-		ctx.engCall(op, engPrep(op), nil)
+		ctx.engCall(op, ctx.prep(op), nil)
+	}
+	// reference observations: every render of the programs whose list items are of a kind the documentation does not
+	// cover, done alone before the threads start (the judge demands of such renders that they repeat, not a text)
+	ctx.pre = []engPreRec{}
+	seen := map[string]bool{}
+	for _, prog := range cc.Progs {
+		for _, op := range prog {
+			d := engOpData(op)
+			if op.Name() != "Render" || d["ik"] == "map" || d["ik"] == nil {
+				continue
+			}
+			k, _ := json.Marshal([]interface{}{op.Str("n"), op.Str("e"), d})
+			if seen[string(k)] {
+				continue
+			}
+			seen[string(k)] = true
+			res, _ := ctx.render(op.Str("n"), op.Str("e"), engData(d))
+			ctx.pre = append(ctx.pre, engPreRec{N: op.Str("n"), E: op.Str("e"), Data: d, Res: res})
+		}
 	}
 	return ctx
+}
+
+type engPreRec struct {
+	N    string                 `json:"n"`
+	E    string                 `json:"e"`
+	Data map[string]interface{} `json:"data"`
+	Res  engRes                 `json:"res"`
 }
 
 func engConcEvent(c Case, cc engConcCase, mode string, ctx *engCtx, calls []engCallRec) Ev {
@@ -184,9 +214,10 @@ func engConcEvent(c Case, cc engConcCase, mode string, ctx *engCtx, calls []engC
 		calls = []engCallRec{}
 	}
 	final, _ := ctx.probes()
+	ctx.cleanup()
 	names := ctx.names
 	return Ev{"ev": "conc", "case": c.ID, "mode": mode, "setup": cc.Setup, "calls": calls, "final": final,
-		"names": names, "pdata": engOpData(ctx.probe), "races": []string{}, "fatal": "", "gates": 0, "stuck": false, "followed": true, "hraces": 0}
+		"names": names, "pdata": engOpData(ctx.probe), "races": []string{}, "fatal": "", "gates": 0, "stuck": false, "followed": true, "hraces": 0, "pre": ctx.pre}
 }
 
 func runEngineGate(c Case, emit Emitter) {
@@ -286,8 +317,9 @@ func runEngineGate(c Case, emit Emitter) {
 	var ev Ev
 	if stuck {
 		// the engine may be wedged: do not touch it again
+		ctx.cleanup()
 		ev = Ev{"ev": "conc", "case": c.ID, "mode": "gate", "setup": cc.Setup, "calls": cp, "final": map[string]interface{}{},
-			"names": []string{}, "pdata": engOpData(ctx.probe), "races": []string{}, "fatal": "", "stuck": true, "hraces": 0}
+			"names": []string{}, "pdata": engOpData(ctx.probe), "races": []string{}, "fatal": "", "stuck": true, "hraces": 0, "pre": ctx.pre}
 	} else {
 		ev = engConcEvent(c, cc, "gate", ctx, cp)
 	}
@@ -343,7 +375,7 @@ func runEngineFreeChild(c Case, emit Emitter) {
 			cp := append([]engCallRec(nil), calls...)
 			mu.Unlock()
 			emit(Ev{"ev": "conc", "case": c.ID, "mode": "free", "setup": cc.Setup, "calls": cp, "final": map[string]interface{}{},
-				"names": []string{}, "pdata": engOpData(ctx.probe), "races": []string{}, "fatal": "", "gates": 0, "stuck": true, "followed": true, "hraces": 0})
+				"names": []string{}, "pdata": engOpData(ctx.probe), "races": []string{}, "fatal": "", "gates": 0, "stuck": true, "followed": true, "hraces": 0, "pre": ctx.pre})
 			return
 		}
 	}
@@ -458,8 +490,8 @@ func runEngineFree(c Case, emit Emitter) {
 		// the child died (or never got to write): one line that carries the diagnosis
 		cc, _ := engConcParse(c)
 		evs = append(evs, Ev{"ev": "conc", "case": c.ID, "mode": "free", "setup": cc.Setup, "calls": []engCallRec{}, "final": map[string]interface{}{},
-			"names": []string{}, "pdata": map[string]interface{}{"v": "", "items": []interface{}{}, "c": false},
-			"races": []string{}, "fatal": "", "gates": 0, "stuck": false, "followed": true})
+			"names": []string{}, "pdata": map[string]interface{}{"v": "", "items": []interface{}{}, "c": false, "ik": "map"},
+			"races": []string{}, "fatal": "", "gates": 0, "stuck": false, "followed": true, "pre": []engPreRec{}})
 	}
 	last := evs[len(evs)-1]
 	last["races"] = sites
